@@ -54,7 +54,8 @@ NEED = {"la_g": "nla_g", "la_c": "nla_c", "la_S": "nla_S", "la_N": "nla_N", "la_
 def cases(tier, seed):
     n = {"quick": 96, "thorough": 2400}[tier]
     m = {"quick": 320, "thorough": 12000}[tier]
-    return [{"kind": "scatter"} for _ in range(n)] + [{"kind": "registry", "batch": 4} for _ in range(m // 4)]
+    return ([{"kind": "scatter"} for _ in range(n)] + [{"kind": "registry", "batch": 4} for _ in range(m // 4)]
+            + [{"kind": "actuators"} for _ in range({"quick": 12, "thorough": 200}[tier])])
 
 
 def _args(code, c, t, q, u, ud, lam, system_level):
@@ -504,6 +505,78 @@ class _Dummy:
             self.name = name
 
 
+def run_actuators(spec, ctx):
+    """several actuators with a control vector set through System.set_tau, whole-number initial coordinates, and a joint that
+    is removed and added again between two assemblies: the control vector, the actuator forces and the contact / constraint
+    residuals are the contributions' own quantities placed at the contributions' CURRENT degrees of freedom"""
+    from cardillo import System
+    from cardillo.discrete import RigidBody, PointMass
+    from cardillo.constraints import Revolute, FixedDistance
+    from cardillo.actuators import Motor, PDcontroller
+    from cardillo.contacts import Sphere2Plane
+    rng = ctx.rng
+    with gen.quiet():
+        S = System()
+        nb = int(rng.integers(2, 5))
+        bodies, joints, acts = [], [], []
+        for i in range(nb):
+            qi = np.array([2 * i, 0, 0, 1, 0, 0, 0])                  # whole numbers, integer dtype
+            b = RigidBody(1.0 + i, np.diag([1.0, 2.0, 3.0]), q0=qi if rng.random() < 0.7 else qi.astype(float), name=f"b{i}")
+            j = Revolute(S.origin if i == 0 else bodies[-1], b, int(rng.integers(3)), r_OJ0=np.array([2.0 * i - 1, 0, 0]), name=f"j{i}")
+            a = Motor(j, 0.0) if rng.random() < 0.6 else PDcontroller(j, 2.0, 0.5, np.zeros(2))
+            a.name = f"act{i}"
+            bodies.append(b); joints.append(j); acts.append(a)
+        pm = PointMass(1.0, q0=[0, 3, 1], u0=[0, 0, 0], name="pm")                # a ball 1 above the ground, radius 1/2
+        con = Sphere2Plane(S.origin, pm, mu=0.0, r=0.5, e_N=0.0, name="ball_on_ground")
+        order = list(rng.permutation(nb))
+        S.add(*bodies, pm, con)
+        for i in order:
+            S.add(joints[i], acts[i])
+        ctx.mon("actuators.assemble")
+        try:
+            S.assemble(options=gen.no_cic_options())
+            if rng.random() < 0.6:
+                k = int(rng.integers(nb))
+                S.remove(joints[k]); S.add(joints[k])                 # the joint now FOLLOWS its actuator in the contribution list
+                if rng.random() < 0.5:
+                    S.remove(bodies[0]); S.add(bodies[0])
+                S.assemble(options=gen.no_cic_options())
+                ctx.cls("actuators:joint_readded_after_its_actuator")
+        except Exception as e:
+            ctx.violation("System.assemble", "system with several actuators fails to assemble", {"error": f"{type(e).__name__}: {e}"[:300]})
+            ctx.sig(["actuators", "failed"], nontrivial=True); return
+        det = {"bodies": nb, "actuators": [a.__class__.__name__ for a in acts]}
+        # ---- layout: an actuator acts on the coordinates of ITS joint
+        ctx.mon("actuators.layout")
+        for a, j in zip(acts, joints):
+            if list(a.uDOF) != list(j.uDOF) or list(a.qDOF[-len(j.qDOF):]) != list(j.qDOF):
+                ctx.violation("System.assemble", "actuator is assembled at other degrees of freedom than its joint", {**det, "actuator": a.name, "actuator_uDOF": a.uDOF, "joint_uDOF": j.uDOF})
+        # ---- control vector
+        ctx.mon("actuators.tau")
+        vals = rng.normal(size=S.ntau)
+        tt = float(rng.normal())
+        for how in ("array", "callable"):
+            S.set_tau(vals.copy() if how == "array" else (lambda t, v=vals: v * (1 + t)))
+            want = vals if how == "array" else vals * (1 + tt)
+            got = np.asarray(S.tau(tt), dtype=float)
+            per = {a.name: np.asarray(a.tau(tt), dtype=float).reshape(-1) for a in acts}
+            bad = got.shape != want.shape or np.abs(got - want).max() > 1e-14 or any(np.abs(per[a.name] - want[a.tauDOF]).max() > 1e-14 for a in acts)
+            if bad:
+                ctx.violation("System.set_tau", "after set_tau the contributions do not read their own slice of the control vector", {**det, "how": how, "set": want, "System.tau": got, "per_actuator": per})
+        # ---- whole-number initial coordinates: system quantities are the contributions' quantities
+        ctx.mon("actuators.integer_q0")
+        q0, t0 = S.q0, S.t0
+        gN_sys, gN_con = np.asarray(S.g_N(t0, q0), dtype=float), np.asarray(con.g_N(t0, q0[con.qDOF]), dtype=float)
+        g_sys = np.asarray(S.g(t0, q0), dtype=float)
+        g_con = np.concatenate([np.asarray(j.g(t0, q0[j.qDOF]), dtype=float) for j in sorted(joints, key=lambda j_: j_.la_gDOF[0])])
+        if np.abs(gN_sys[con.la_NDOF] - gN_con).max() > 1e-14 or np.abs(g_sys - g_con).max() > 1e-12 or np.asarray(q0).dtype.kind != "f":
+            ctx.violation("System.g_N", "system residuals at the assembled initial state differ from the contributions' own (whole-number initial coordinates)",
+                          {**det, "System.g_N": gN_sys, "contact.g_N": gN_con, "System.g": g_sys, "joints.g": g_con, "q0_dtype": str(np.asarray(q0).dtype)})
+    ctx.cls("kind:actuators")
+    ctx.sig(["actuators", det, vals.tolist()], nontrivial=True)
+    ctx.sample({"kind": "actuators", **det})
+
+
 def run_registry(spec, ctx):
     from cardillo import System
     from cardillo.discrete import PointMass
@@ -589,6 +662,8 @@ def run_registry(spec, ctx):
 
 def run_case(spec, ctx):
     env.import_cardillo()
+    if spec["kind"] == "actuators":
+        return run_actuators(spec, ctx)
     if spec["kind"] == "scatter":
         run_scatter(spec, ctx)
     else:
